@@ -74,6 +74,37 @@ Theorem c04_source_consent_precedes_effects :
   /\ before "VerifEnabled" "UvCheck" SRC_CHECK_USER = true.
 Proof. exact source_consent_precedes_effects. Qed.
 
+(** *** the WebAuthn entry points (passkey-client): every successful client ceremony contains an authenticator
+    ceremony with up = true and uv = "verification not discouraged" on whose own trace the judgement above holds *)
+From PK Require Import Auth.Client Auth.C11Facts Auth.C04Client.
+Theorem c04_register_client : forall c domain origin q cd script tr cr,
+  interp (register c domain origin q cd) script = (tr, Some (Ok cr)) ->
+  exists d0 uv up rk tr_mc resp tr_fin,
+    tr = info_events d0 uv up ++ tr_mc ++ tr_fin
+    /\ no_save tr_fin
+    /\ let o := client_options rk (option_map sel_uv (rq_selection q)) in
+       c04_judge_mc o (run_monitor (c04_step o) c04_init tr_mc) (Some (Ok resp)) = true.
+Proof. exact register_consent. Qed.
+
+Theorem c04_authenticate_client : forall c domain origin q cd script tr au,
+  interp (authenticate c domain origin q cd) script = (tr, Some (Ok au)) ->
+  exists d0 uv up tr_ga resp,
+    tr = info_events d0 uv up ++ tr_ga
+    /\ let o := client_options false (Some (aq_uv q)) in
+       c04_judge_ga o (run_monitor (c04_step o) c04_init tr_ga) (Some (Ok resp)) = true.
+Proof. exact authenticate_consent. Qed.
+
+(** required (and preferred, and absent) verification reaches the authenticator as uv = true; only "discouraged" does not *)
+Theorem c04_client_uv_mapping :
+  uv_option (Some UvRequired) = true /\ uv_option (Some UvPreferred) = true /\ uv_option None = true
+  /\ uv_option (Some UvDiscouraged) = false.
+Proof. repeat split. Qed.
+
+(** ... and a ceremony with uv = true succeeds only when the verification capability answered Some(true) *)
+Theorem c04_required_verification_needs_capability : forall o s resp, o_uv o = true ->
+  c04_judge_mc o s (Some (Ok resp)) = true -> s_cap s = Some (Some true).
+Proof. exact judge_mc_required. Qed.
+
 Print Assumptions c04_make_credential.
 Print Assumptions c04_get_assertion.
 Print Assumptions c04_violation_bit_meaning.
@@ -82,3 +113,7 @@ Print Assumptions c04_source_order_get_assertion.
 Print Assumptions c04_source_order_check_user.
 Print Assumptions c04_source_order_on_runs.
 Print Assumptions c04_source_consent_precedes_effects.
+Print Assumptions c04_register_client.
+Print Assumptions c04_authenticate_client.
+Print Assumptions c04_client_uv_mapping.
+Print Assumptions c04_required_verification_needs_capability.
